@@ -152,6 +152,11 @@ try:
     HANDLERS.update(impl_quant.HANDLERS)
 except ImportError:
     pass
+try:
+    import impl_train
+    HANDLERS.update(impl_train.HANDLERS)
+except ImportError:
+    pass
 
 
 def main():
